@@ -666,6 +666,8 @@ var verifHosts = []verifHost{
 	{"case-in-binding", []string{"x = [Sym.a, 1]", "case x", "in [p, q]", "dbtp p", "dbtp q", "end", "dbtp x"}, []int{1, 2, 4, 5, 7}},
 	{"ends-with-end", []string{"def g(v)", "v", "end", "r = g(Sym.a)", "dbtp r", "if r.nil?", "dbtp r", "end"}, []int{1, 4, 5, 6}},
 	{"ends-with-call", []string{"a = [Sym.a]", "dbtp a", "b = a.first", "dbtp b", "a.push(1)"}, []int{1, 2, 3, 4}},
+	{"guard-clause", []string{"def h(v)", "return 0 if v.nil?", "w = v", "dbtp w", "w", "end", "r = h(Sym.a)", "dbtp r"}, []int{1, 2, 3, 4, 7, 8}},
+	{"modifier-unless-then-array", []string{"x = Sym.a", "y = 1 unless x.nil?", "[1, 2].each do |e|", "dbtp e", "end", "dbtp y"}, []int{1, 2, 3, 4, 6}},
 }
 
 var verifFragments = []struct{ name, text string }{
@@ -674,6 +676,9 @@ var verifFragments = []struct{ name, text string }{
 	{"builtin-call-on-union", "uu = true ? 1 : \"s\"\nvv = uu * 2\n"},
 	{"block", "[1, 2].each do |ee|\nee\nend\n"},
 	{"string-call", "ss = \"a\".upcase\n"},
+	{"modifier-if", "fq = nil\nfr = 1 if fq.nil?\n"},
+	{"while-loop", "wi = 0\nwhile wi < 3\nwi = wi + 1\nend\n"},
+	{"hash-and-index", "hh = {k: 1}\nhv = hh[:k]\n"},
 }
 
 func verifJoinLines(lines []string) string {
